@@ -181,12 +181,63 @@ func ruleCOW2(r *Run) {
 		r.missing("writer functions (callers of storeState / loadState().clone())")
 		return
 	}
+	// inCritical: is instruction `in` of fn inside fn's own Lock … Unlock of Mux.mu?
+	inCritical := func(fn *ssa.Function, in ssa.Instruction) (bool, string) {
+		li := p.muLock(fn)
+		if li.lock == nil {
+			return false, "the function never takes Mux.mu"
+		}
+		if !instrDominates(li.lock.(ssa.Instruction), in) {
+			return false, "call is not dominated by m.mu.Lock(): it can run outside the writers' critical section"
+		}
+		if li.deferUnlock != nil && instrDominates(li.lock.(ssa.Instruction), li.deferUnlock) && instrDominates(li.deferUnlock, in) {
+			return true, "inside Lock … deferred Unlock"
+		}
+		if len(li.unlocks) == 0 {
+			return false, "Mux.mu is locked but never unlocked in this function (no deferred or explicit Unlock)"
+		}
+		// explicit unlock: none may lie on a path between Lock and the call
+		for _, u := range li.unlocks {
+			q1 := pathQuery{fn: fn, start: u.(ssa.Instruction), target: func(x ssa.Instruction) bool { return x == in },
+				barrier: func(x ssa.Instruction) bool { return x == li.lock.(ssa.Instruction) }}
+			if w, _ := q1.find(); w != nil && instrDominates(li.lock.(ssa.Instruction), u.(ssa.Instruction)) {
+				return false, "an Unlock of Mux.mu can precede this call: it can run outside the critical section"
+			}
+		}
+		return true, "inside Lock … Unlock"
+	}
+	// heldAtEveryCall: fn is a transparent helper (registerConnLocked) and every call of it sits inside the caller's
+	// critical section (transitively)
+	var heldAtEveryCall func(fn *ssa.Function, depth int) (bool, string)
+	heldAtEveryCall = func(fn *ssa.Function, depth int) (bool, string) {
+		if !p.isTransparent(fn) || depth > 3 {
+			return false, "writer never takes Mux.mu: two writers can clone the same snapshot and the later store loses the earlier registration"
+		}
+		sites := p.helpers().sites[fn]
+		if len(sites) == 0 {
+			return false, "no call site"
+		}
+		for _, st := range sites {
+			if ok, _ := inCritical(st.Parent(), st); ok {
+				continue
+			}
+			if ok, why := heldAtEveryCall(st.Parent(), depth+1); !ok {
+				return false, "called from " + shortFunc(st.Parent()) + " outside Mux.mu: " + why
+			}
+		}
+		return true, "a helper that is only called with Mux.mu held"
+	}
 	for _, fn := range ws {
 		key := shortFunc(fn)
 		li := p.muLock(fn)
+		helperHeld := false
 		if li.lock == nil {
-			r.bad(key+"/lock", fn.Pos(), "writer never takes Mux.mu: two writers can clone the same snapshot and the later store loses the earlier registration")
-			continue
+			ok, why := heldAtEveryCall(fn, 0)
+			if !ok {
+				r.bad(key+"/lock", fn.Pos(), "%s", why)
+				continue
+			}
+			helperHeld = true
 		}
 		// what must be inside the critical section
 		var crit []ssa.Instruction
@@ -207,35 +258,12 @@ func ruleCOW2(r *Run) {
 		for _, in := range crit {
 			c := in.(ssa.CallInstruction)
 			k := key + "/locked:" + shortName(calleeName(c))
-			if !instrDominates(li.lock.(ssa.Instruction), in) {
-				r.bad(k, in.Pos(), "call is not dominated by m.mu.Lock(): it can run outside the writers' critical section")
+			if helperHeld {
+				r.ok(k, in.Pos(), "in a helper that is only called with Mux.mu held")
 				continue
 			}
-			if li.deferUnlock != nil && instrDominates(li.lock.(ssa.Instruction), li.deferUnlock) && instrDominates(li.deferUnlock, in) {
-				r.ok(k, in.Pos(), "inside Lock … deferred Unlock")
-				continue
-			}
-			// explicit unlock: none may lie on a path between Lock and the call
-			viol := false
-			for _, u := range li.unlocks {
-				q := pathQuery{fn: fn, start: li.lock.(ssa.Instruction),
-					target:  func(x ssa.Instruction) bool { return x == in },
-					barrier: nil}
-				_ = q
-				// is there a path lock -> unlock -> in ?
-				q1 := pathQuery{fn: fn, start: u.(ssa.Instruction), target: func(x ssa.Instruction) bool { return x == in },
-					barrier: func(x ssa.Instruction) bool { return x == li.lock.(ssa.Instruction) }}
-				if w, _ := q1.find(); w != nil && instrDominates(li.lock.(ssa.Instruction), u.(ssa.Instruction)) {
-					viol = true
-				}
-			}
-			if len(li.unlocks) == 0 {
-				r.bad(k, in.Pos(), "Mux.mu is locked but never unlocked in this function (no deferred or explicit Unlock)")
-			} else if viol {
-				r.bad(k, in.Pos(), "an Unlock of Mux.mu can precede this call: it can run outside the critical section")
-			} else {
-				r.ok(k, in.Pos(), "inside Lock … Unlock")
-			}
+			ok, why := inCritical(fn, in)
+			r.check(ok, k, in.Pos(), why, why)
 		}
 	}
 }
